@@ -1,5 +1,6 @@
 #include <deque>
 #include <cstring>
+#include <vector>
 #include <cstdio>
 #include <cassert>
 #include <ctime>
@@ -77,26 +78,26 @@ void UndoHistory::showHistory(void) const
                 s.second, rtosc_argument(s.second, 0).s, rtosc_argument_string(s.second));
 }
 
-static char tmp[256];
+//the message that sets an event's address to its argument arg_idx (1: old, 2: new value)
+static std::vector<char> setMessage(const char *msg, unsigned arg_idx)
+{
+    rtosc_arg_t arg      = rtosc_argument(msg, arg_idx);
+    const char *addr     = rtosc_argument(msg, 0).s;
+    const char  types[2] = {rtosc_argument_string(msg)[2], 0};
+    //addresses can be longer than any fixed scratch buffer
+    std::vector<char> res(rtosc_amessage(NULL, 0, addr, types, &arg));
+    rtosc_amessage(res.data(), res.size(), addr, types, &arg);
+    return res;
+}
+
 void UndoHistoryImpl::rewind(const char *msg)
 {
-    memset(tmp, 0, sizeof(tmp));
-    rtosc_arg_t arg = rtosc_argument(msg,1);
-    rtosc_amessage(tmp, 256, rtosc_argument(msg,0).s,
-            rtosc_argument_string(msg)+2,
-            &arg);
-    cb(tmp);
+    cb(setMessage(msg, 1).data());
 }
 
 void UndoHistoryImpl::replay(const char *msg)
 {
-    rtosc_arg_t arg = rtosc_argument(msg,2);
-    int len = rtosc_amessage(tmp, 256, rtosc_argument(msg,0).s,
-            rtosc_argument_string(msg)+2,
-            &arg);
-    
-    if(len)
-        cb(tmp);
+    cb(setMessage(msg, 2).data());
 }
 
 const char *getUndoAddress(const char *msg)
